@@ -35,6 +35,7 @@ var Harnesses = map[string]func(){
 	"cont.H_Instances":        cont.H_Instances,
 	"cont.H_ReplacedSibling":  cont.H_ReplacedSibling,
 	"cont.H_TwoGroups":        cont.H_TwoGroups,
+	"cont.H_AuxCycle":         cont.H_AuxCycle,
 	"cont.H_RejectedKeyGroup": cont.H_RejectedKeyGroup,
 	"cont.H_EmptyIn":          cont.H_EmptyIn,
 	"cont.H_TypedErrors":      cont.H_TypedErrors,
